@@ -584,9 +584,17 @@ def helper_guards(P, fn):
             cond2 = ("cmp", cond[1], tuple(subst_params(a, mapping) for a in cond[2]), False, b, cond[5] if len(cond) > 5 else None)
         elif cond[0] == "boolparam" and cond[1] < len(cv[4]):
             cond2 = cond_of_value(cv[4][cond[1]], b)
-            if _cond_negated(cond2):
+            was_neg = bool(_cond_negated(cond2))
+            if was_neg:
                 tt, ft = ft, tt
                 cond2 = (cond2[:3] + (False,) + cond2[4:]) if cond2[0] == "cmp" else (cond2[:2] + (False,))
+            g_ = Guard(fn, s_, cond2, tt, ft)
+            # where the bool argument lives, so that a compound condition (`a && b`, `!(a || b)`) can be expanded per path
+            aop = fn.body.blocks[b]["term"]["args"][cond[1]]
+            if aop["k"] in ("copy", "move") and not aop["place"]["p"]:
+                g_.flag_at = ((b, len(fn.body.blocks[b]["stmts"])), aop["place"]["l"], was_neg)     # the local holds the (possibly negated) argument
+            out.append(g_)
+            continue
         else:
             continue
         out.append(Guard(fn, s_, cond2, tt, ft))
@@ -958,6 +966,8 @@ def control_conditions(P, fn, b, expand_helpers=True, _depth=0):
                 r["cond"], r["allowed"], r["ty"], r["via"] = g.cond, [True], None, "helper"
             elif tb == g.false_t and tb != g.true_t:
                 r["cond"], r["allowed"], r["ty"], r["via"] = g.cond, [False], None, "helper"
+            if r.get("via") == "helper" and getattr(g, "flag_at", None) is not None:
+                r["flag_at"] = g.flag_at
     return res
 
 
@@ -1005,6 +1015,145 @@ def truth_conditions(P, fn, loc, local, want, depth=0):
             return base + [{"sw": b, "cond": c, "allowed": [want], "ty": None, "via": "flag"}]
         return None
     return None
+
+
+def truth_dnf(P, fn, loc, local, want, depth=0):
+    """Like truth_conditions, but as a disjunction: a list of conjunctions (each a control_conditions-style list), one per
+    assignment path on which bool local `local` gets the value `want` at `loc`.  None when a path cannot be expressed."""
+    body = fn.body
+    if depth > 6:
+        return None
+    rs_ = body.reaching(loc, local)
+    if len(rs_) == 1 and rs_[0] != "entry" and rs_[0][2] == "full":
+        rv = body.blocks[rs_[0][0]]["stmts"][rs_[0][1]]["rv"]
+        if rv["k"] == "use" and rv["op"]["k"] in ("copy", "move") and not rv["op"]["place"]["p"]:
+            return truth_dnf(P, fn, (rs_[0][0], rs_[0][1]), rv["op"]["place"]["l"], want, depth + 1)
+        if rv["k"] == "unop" and rv.get("op") == "Not" and rv.get("a", {}).get("k") in ("copy", "move") and not rv["a"]["place"]["p"]:
+            return truth_dnf(P, fn, (rs_[0][0], rs_[0][1]), rv["a"]["place"]["l"], not want, depth + 1)
+    out = []
+    for s_ in rs_:
+        if s_ == "entry" or s_[2] not in ("full", "call"):
+            return None
+        b, i = s_[0], s_[1]
+        v = P.val_def(fn, body, s_, local)
+        if v == ("const", "int", 1) or v == ("const", "int", 0):
+            if (v[2] == 1) == want:
+                for conj in control_conditions_dnf(P, fn, b, depth + 1):
+                    out.append(conj)
+            continue
+        c = cond_of_value(v, b)
+        if c[0] == "cmp":
+            neg = c[3]
+            c2 = c[:3] + (False,) + c[4:]
+            for conj in control_conditions_dnf(P, fn, b, depth + 1):
+                out.append(conj + [{"sw": b, "cond": c2, "allowed": [want != neg], "ty": None, "via": "flag"}])
+            continue
+        if s_[2] == "full":
+            rv = body.blocks[b]["stmts"][i]["rv"]
+            if rv["k"] == "use" and rv["op"]["k"] in ("copy", "move") and not rv["op"]["place"]["p"]:
+                sub = truth_dnf(P, fn, (b, i), rv["op"]["place"]["l"], want, depth + 1)
+                if sub is None:
+                    return None
+                out += sub
+                continue
+        return None
+    return out
+
+
+def edge_condition(P, fn, sw, tb):
+    """The condition of taking edge sw -> tb of a switch, in control_conditions form (None for a switch with one live target)."""
+    body = fn.body
+    t = body.blocks[sw]["term"]
+    targets = [(v, x) for v, x in t["arms"]] + [("otherwise", t["otherwise"])]
+    live = sorted({x for _, x in targets if body.blocks[x]["term"]["k"] != "unreachable"})
+    if len(live) < 2:
+        return None
+    cond = switch_cond(P, fn, sw)
+    ty = discr_place_ty(fn, sw)
+    be = bool_edges(body, sw)
+    labels = []
+    for v, x in targets:
+        if x != tb:
+            continue
+        if be is not None and ty is None:
+            neg = (cond[3] if cond[0] == "cmp" else (cond[2] if len(cond) > 2 else False))
+            truth = (v == "otherwise")
+            labels.append((not truth) if neg else truth)
+        elif ty is not None and v != "otherwise":
+            labels.append(variant_name(P, ty, v))
+        elif ty is not None and v == "otherwise":
+            listed = {variant_name(P, ty, y) for y, _ in t["arms"]}
+            rest = [y for y in (all_variants(P, ty) or []) if y not in listed]
+            labels.extend(rest if rest else ["otherwise"])
+        else:
+            labels.append(v)
+    return {"sw": sw, "cond": cond, "allowed": labels, "ty": ty}
+
+
+def path_conjunctions(P, fn, b, limit=96):
+    """Every acyclic path entry -> b as a conjunction of conditions (control_conditions form), with `check(..)?` helpers
+    and bool flags expanded.  Unlike control_conditions (what holds on *all* paths) this keeps the paths apart, so a block
+    reached through `a || b` yields the two rows {a} and {not a, b}.  None when there are too many paths."""
+    paths = path_conditions(P, fn, b, limit)
+    if paths is None:
+        return None
+    hg = {g.b: g for g in helper_guards(P, fn)}
+    body = fn.body
+    out = []
+    for path in paths:
+        rows = [[]]
+        for (sw, tb) in path:
+            c = edge_condition(P, fn, sw, tb)
+            if c is None:
+                continue
+            g = hg.get(sw)
+            if g is not None and c["cond"][0] == "discr":
+                if tb == g.true_t and tb != g.false_t:
+                    c = {"sw": sw, "cond": g.cond, "allowed": [True], "ty": None, "via": "helper"}
+                elif tb == g.false_t and tb != g.true_t:
+                    c = {"sw": sw, "cond": g.cond, "allowed": [False], "ty": None, "via": "helper"}
+                if getattr(g, "flag_at", None) is not None:
+                    c["flag_at"] = g.flag_at
+            alts = None
+            cd = c["cond"]
+            if cd[0] == "flag" and len(c["allowed"]) == 1 and c["allowed"][0] in (True, False):
+                t = body.blocks[sw]["term"]
+                if c.get("flag_at") is not None:
+                    alts = truth_dnf(P, fn, c["flag_at"][0], c["flag_at"][1], c["allowed"][0] != c["flag_at"][2], 1)
+                elif t["discr"]["k"] in ("copy", "move") and not t["discr"]["place"]["p"]:
+                    alts = truth_dnf(P, fn, (sw, len(body.blocks[sw]["stmts"])), t["discr"]["place"]["l"], c["allowed"][0], 1)
+            if alts is None:
+                rows = [r + [c] for r in rows]
+            else:
+                rows = [r + a for r in rows for a in alts]
+            if len(rows) > limit:
+                return None
+        out += rows
+    return out
+
+
+def control_conditions_dnf(P, fn, b, depth=0):
+    """The conditions under which block b is reached, as a list of conjunctions: bool flags that become true on several
+    assignment paths (`x = match .. { A => p && q, B => r }; if x {..}`) are expanded into one conjunction per path."""
+    base = control_conditions(P, fn, b)
+    res = [[]]
+    body = fn.body
+    for c in base:
+        alts = None
+        cd = c["cond"]
+        if cd[0] == "flag" and len(c["allowed"]) == 1 and c["allowed"][0] in (True, False) and depth < 5:
+            t = body.blocks[c["sw"]]["term"]
+            if c.get("flag_at") is not None:
+                alts = truth_dnf(P, fn, c["flag_at"][0], c["flag_at"][1], c["allowed"][0] != c["flag_at"][2], depth + 1)
+            elif t["discr"]["k"] in ("copy", "move") and not t["discr"]["place"]["p"]:
+                alts = truth_dnf(P, fn, (c["sw"], len(body.blocks[c["sw"]]["stmts"])), t["discr"]["place"]["l"], c["allowed"][0], depth + 1)
+        if alts is None:
+            res = [r + [c] for r in res]
+        else:
+            res = [r + a for r in res for a in alts]
+        if len(res) > 64:
+            return [base]
+    return res
 
 
 # ---------------------------------------------------------------------------------------
